@@ -363,9 +363,27 @@ def run(cx):
     # channel with a valid CRC): shared with C16.e / C16.f
     from bits import check_headers
     check_headers(cx, "C01.j", "C01.k")
+    # a slot the window passes is released whatever its state: stale fragments must not leak into the
+    # packet that maps to the same slot one window later
+    from props.shared import window_walks
+    window_walks(cx, "C01.l")
+    from props.idarith import id_arith_discipline
+    id_arith_discipline(cx, "C01.m")
 
 
 SELFTEST = [
+    {"name": "advance_window releases a reassembly slot only if its delivered flag is set",
+     "edits": [{"file": "src/half_connection/packet_receiver/mod.rs", "old": "            self.assembly_window.clear(window_idx);\n", "new": "            if self.data_flags[window_idx / 64] & (1 << (window_idx % 64)) != 0 { self.assembly_window.clear(window_idx); }\n"}],
+     "expect": ["C01.l"]},
+    {"name": "end_id left behind when the window jumps past it",
+     "edits": [{"file": "src/half_connection/packet_receiver/mod.rs", "old": "            self.end_id = new_base_id;\n", "new": ""}],
+     "expect": ["C01.l"]},
+    {"name": "raw comparison of packet ids in handle_datagram",
+     "edits": [{"file": "src/half_connection/packet_receiver/mod.rs", "old": "        if packet_lead < channel_lead {", "new": "        if sequence_id < channel_base_id {"}],
+     "expect": ["C01.m"]},
+    {"name": "benign: delivered flag cleared only where it is set",
+     "edits": [{"file": "src/half_connection/packet_receiver/mod.rs", "old": "            self.entry_flags[flags_index] &= !flag_bit;\n\n            id = packet_id::add(id, 1);", "new": "            if self.entry_flags[flags_index] & flag_bit != 0 { self.entry_flags[flags_index] &= !flag_bit; }\n\n            id = packet_id::add(id, 1);"}],
+     "expect": []},
     {"name": "drop the window_contains test around the datagram loop",
      "edits": [{"file": "src/half_connection/mod.rs", "old": "        if self.frame_ack_queue.window_contains(frame.sequence_id) {\n            self.frame_ack_queue.mark_seen", "new": "        if self.frame_ack_queue.window_contains(frame.sequence_id) || true {\n            self.frame_ack_queue.mark_seen"}],
      "expect": ["C01.a"]},
